@@ -50,6 +50,12 @@ def gen_movies(rng, tier):
         empty = {"track_id": 1, "base": base, "tfhd_dur": None, "tfdt": 650, "tfdt_v": 0, "durations": None, "sizes": [], "cts": None, "trun": False}
         seq = [[empty], [full[0]], [full[1]]] if pos == 0 else [[full[0]], [empty], [full[1]]]
         movies.append(([{"id": 1, "kind": "avc", "ts": 1000}], seq, 50))
+    # per-sample sizes adding up to 2^32 and more INSIDE one run (offsets are 64-bit sums; the file carries only the first bytes of each sample)
+    for base in ("moof", "explicit"):      # (a base at the END of such a run would need a data offset below -2^31)
+        for sizes in ([0xC0000000, 0x60000000, 12, 0xFFFFFFF0, 7], [0xFFFFFFFF, 1, 1], [1 << 31, 1 << 31, 5, 6]):
+            ctl = {"track_id": 1, "base": base, "tfhd_dur": None, "tfdt": 0, "tfdt_v": 0, "durations": [10, 10], "sizes": [3, 4], "cts": None}
+            big = {"track_id": 1, "base": base, "tfhd_dur": 10, "tfdt": 20, "tfdt_v": 0, "durations": None, "sizes": list(sizes), "cts": None, "data_cap": 4, "k0": 3}
+            movies.append(([{"id": 1, "kind": "avc", "ts": 1000}], [[ctl], [big]], 50))
     n_rand = 150 if tier == "quick" else 3000
     for _ in range(n_rand):
         ntr = rng.choice([1, 2, 2])
@@ -97,14 +103,18 @@ def check(rep):
     movies = gen_movies(rng, rep.tier)
     cases, meta = [], []
     for mi, (tracks, frags, dflt) in enumerate(movies):
-        extra = [isogen.Box("free", [isogen.Raw(b"pad")])] if mi % 5 == 0 else []
+        # between the fragments: a free box (mi % 5 == 0), a well-formed event message box in front of every moof (1), or one the library cannot decode
+        # (version 2; mi % 5 == 4): the reader may reject such a stream, but if it opens it every lookup must still be right
+        extra = [isogen.Box("free", [isogen.Raw(b"pad")])] if mi % 5 == 0 else [isogen.emsg(mi % 2, 1000, 5, 6, 7, b"urn:x", b"v", b"\1\2\3")] if mi % 5 == 1 else \
+                [isogen.emsg(2, 1000, 5, 6, 7, b"urn:x", b"v", b"\1\2\3")] if mi % 5 == 4 else []
+        may_reject = mi % 5 == 4
         init, fin = isogen.build_fragmented(tracks, frags, trex_dur=dflt, extra_between=extra, large_moof=(mi % 4 == 1), last_mdat_to_eof=(mi % 5 == 2))
         media1, runs1 = fin(len(init))
         cases.append({"data": init + media1})
-        meta.append((mi, "single", init + media1, runs1, dflt, tracks))
+        meta.append((mi, "single" + ("?" if may_reject else ""), init + media1, runs1, dflt, tracks))
         media2, runs2 = fin(0)
         cases.append({"data": init, "frag": media2})
-        meta.append((mi, "segment", media2, runs2, dflt, tracks))
+        meta.append((mi, "segment" + ("?" if may_reject else ""), media2, runs2, dflt, tracks))
     fails, ties = [], []
     stats = {"movies": len(movies), "cases": len(cases), "consistent_runs": 0, "runs": 0, "samples": 0, "model_skipped": 0}
     distinct = set()
@@ -142,8 +152,12 @@ def check(rep):
             if "dead" in impl:
                 fails.append(("dead_%d" % len(fails), {"kind": "input", "what": "worker died", "case": "movie %d %s" % (mi, kind)}))
                 continue
+            may_reject = kind.endswith("?")
+            kind = kind.rstrip("?")
             dump = impl if kind == "single" else impl.get("frag", {})
             okk = impl.get("open") == "ok" and (kind == "single" or impl.get("open_frag") == "ok")
+            if not okk and may_reject and "panic" not in (impl.get("open"), impl.get("open_frag")):
+                continue
             if not okk:
                 fails.append(("open_%s_%d" % (profile, len(fails)), {"kind": "input", "what": "reader rejects a consistent fragmented input (%s / %s)" % (impl.get("open"), impl.get("open_frag")),
                                                                      "case": "movie %d %s" % (mi, kind), "file": cases[ci]["data"].hex(), "frag": cases[ci].get("frag", b"").hex()}))
@@ -177,9 +191,14 @@ def check(rep):
                     if 1 <= k <= n:
                         off, sz, st, du, ct = spec["expand"][k - 1]
                         off, sz, st, du = int(off, 16), int(sz, 16), int(st, 16), int(du, 16)
-                        want = {"r": "some", "start": st, "dur": du, "cts": ct, "len": sz, "bytes": data[off:off + sz].hex()}
+                        want = {"r": "some", "start": st, "dur": du, "cts": ct, "len": sz, "bytes": data[off:off + sz].hex() if off + sz <= len(data) else None}
                         g = {x: got.get(x) for x in want}
-                        if g != want or c.get("off", {}).get(k) != "ok:%d" % off:
+                        if want["bytes"] is None:
+                            # the declared sample lies (partly) beyond the bytes the stream carries: the offset is defined, reading must not yield a sample
+                            bad = got.get("r") == "some" or c.get("off", {}).get(k) != "ok:%d" % off
+                        else:
+                            bad = g != want or c.get("off", {}).get(k) != "ok:%d" % off
+                        if bad:
                             fails.append(("sample_%s_%d" % (profile, len(fails)), {"kind": "input", "what": "sample %d of track %d differs from the movie-fragment semantics" % (k, t["id"]),
                                                                                    "expected": dict(want, off=off), "observed": dict(g, off=c.get("off", {}).get(k)), "runs": runs[t["id"]],
                                                                                    "case": "movie %d %s" % (mi, kind), "file": cases[ci]["data"].hex(), "frag": cases[ci].get("frag", b"").hex()}))
